@@ -653,6 +653,9 @@ class SimWorld:
         self.fault_log = []
         self.ordinary_kills_only = False
         self.pending_empty = None  # for probes
+        self.pools = []
+        self.connections = []
+        self.mp_module = None
         kernel.extra_actions.append(self._feeder_actions)
         kernel.extra_actions.append(self._fault_actions)
         kernel.extra_actions.append(self._signal_actions)
@@ -676,7 +679,8 @@ class SimWorld:
         pass
 
     # ---- processes
-    def spawn(self, proc):
+    def spawn(self, proc, body=None):
+        proc.body = body
         proc.ordinal = len(self.procs)
         proc.label = "W%d" % proc.ordinal
         proc.pid_ = 1000 + proc.ordinal
@@ -694,12 +698,19 @@ class SimWorld:
         for ft in self.faults:
             if ft.victim == proc.ordinal:
                 proc.faults.append(ft)
+        # fork: the child inherits every pipe end its parent has open
+        me = self.current_proc()
+        for c in self.connections:
+            if me in c.holders:
+                c.holders.add(proc)
 
     def _child_main(self, proc):
         code = 0
         try:
             try:
-                if type(proc).run is SimProcess.run:
+                if getattr(proc, "body", None) is not None:
+                    proc.body()
+                elif type(proc).run is SimProcess.run:
                     if proc._target:
                         proc._target(*proc._child_args, **proc._child_kwargs)
                 else:
@@ -726,6 +737,7 @@ class SimWorld:
             self.note_probe("worker_uncaught_exception")
         if not proc.dead:
             proc.dead = True
+            self._release_fds(proc)
             proc._exitcode = code & 0xFF if code >= 0 else code
             if proc._exitcode != 0:
                 proc.died_abnormally = True
@@ -767,6 +779,11 @@ class SimWorld:
                         except ValueError:
                             pass
             f.buffer.clear()
+        if getattr(proc, "extra_locks", 0) > 0 or (getattr(proc, "holds_pool_lock", None) and proc.holds_pool_lock()):
+            lock_leaked = True
+        if getattr(proc, "running_task", None) is not None:
+            lost += 1
+        self._release_fds(proc)
         task = proc.task
         at_exit = task.pending is not None and task.pending.kind in ("exit-flush", "exit")
         delivered_all = at_exit and proc.target_done and lost == 0
@@ -790,9 +807,15 @@ class SimWorld:
         if torn:
             self.note_probe("death_with_torn_frame")
 
+    def _release_fds(self, proc):
+        for c in self.connections:
+            c.holders.discard(proc)
+
     # ---- kernel action providers
     def _feeder_actions(self):
         acts = []
+        for pool in self.pools:
+            pool.actions(acts)
         for f in self.parent.feeders:
             f.q.feeder_actions(f, acts)
         for p in self.procs:
@@ -830,6 +853,9 @@ class SimWorld:
     # ---- end of program: what the interpreter does for multiprocessing at exit
     def parent_atexit(self):
         """util._exit_function in the main process: terminate daemons, join the rest."""
+        for pool in self.pools:
+            if pool.state != "TERMINATE":
+                pool._terminate()
         for p in list(self.procs):
             if not p.dead and p.daemon:
                 self.seam(Op("atexit-terminate", p.label))
@@ -900,7 +926,11 @@ class KillFault:
                 return False
         else:
             return any(self.matches_feeder(proc, f) for f in proc.feeders)
-        if self.ordinary and any(f.holds_lock() for f in proc.feeders):
+        if self.ordinary and (
+            any(f.holds_lock() for f in proc.feeders)
+            or getattr(proc, "extra_locks", 0) > 0
+            or (getattr(proc, "holds_pool_lock", None) and proc.holds_pool_lock())
+        ):
             return False
         return True
 
@@ -949,8 +979,7 @@ def fault_from_json(d):
 # ---------------------------------------------------------------------------------------------
 
 _UNSUPPORTED = [
-    "Pool", "Manager", "SimpleQueue", "Pipe", "Array", "RawArray", "Barrier", "Condition",
-    "BoundedSemaphore", "connection", "shared_memory", "managers", "pool",
+    "Manager", "Array", "RawArray", "Barrier", "Condition", "BoundedSemaphore", "connection", "shared_memory", "managers",
 ]
 
 
@@ -1000,6 +1029,11 @@ def make_module():
     m.freeze_support = lambda: None
     m.get_logger = lambda: __import__("logging").getLogger("multiprocessing")
     m.log_to_stderr = lambda level=None: __import__("logging").getLogger("multiprocessing")
+    from . import simpool
+
+    m.Pool = simpool.SimPool
+    m.SimpleQueue = simpool.SimSimpleQueue
+    m.Pipe = simpool.sim_pipe
     m.TimeoutError = type("TimeoutError", (Exception,), {})
     m.ProcessError = type("ProcessError", (Exception,), {})
     m.AuthenticationError = type("AuthenticationError", (Exception,), {})
@@ -1019,4 +1053,11 @@ def make_module():
     pr.current_process = m.current_process
     pr.active_children = m.active_children
     m.process = pr
-    return m, {"multiprocessing.queues": q, "multiprocessing.process": pr}
+    pl = types.ModuleType("multiprocessing.pool")
+    pl.Pool = simpool.SimPool
+    pl.ThreadPool = _unsupported("ThreadPool")
+    pl.AsyncResult = pl.ApplyResult = simpool.ApplyResult
+    pl.MapResult = simpool.MapResult
+    m.pool = pl
+    q.SimpleQueue = simpool.SimSimpleQueue
+    return m, {"multiprocessing.queues": q, "multiprocessing.process": pr, "multiprocessing.pool": pl}
